@@ -967,7 +967,7 @@ func (e *Exec) evalSpecCall(n *ast.CallExpr, env *specEnv) (SV, error) {
 			if a[0].L[0].Sort == SString {
 				return pureSV(app(SInt, "str.len", a[0].L[0])), nil
 			}
-			return SV{}, fmt.Errorf("len of %s", exprString(n.Args[0]))
+			return SV{}, fmt.Errorf("len of %s (type %v, %d leaves, addr %v)", exprString(n.Args[0]), a[0].T, len(a[0].L), a[0].Addr)
 		case "cap":
 			a, err := args()
 			if err != nil {
